@@ -12,7 +12,9 @@ C17 driver.  One request per line:
   (hex of the UTF-8 bytes, `-` for the empty string).
 
 Answer: `panic` or
-  `ok rd{..} nodes[KIND{k=v;..}|..] inval[@inv>@target,..] look["name:KIND|-|?,..]`
+  `ok rd{..} nodes[KIND{k=v;..}|..] inval[@inv>@target,..] look["name:KIND|-|?,..] store[VAL,..] imm[id,..]`
+(`store` = every value-store cell in id order: one cell per declared immediate, in document
+order; `imm` = the raw value ids of the immediates in the order `nodes[..]` prints them)
 nodes in `visit_nodes` order (ascending id) with every public getter (references as `@hex name`,
 value-store contents behind value ids, floats as bit patterns); `inval` = `store_invalidator`
 calls in call order; `look` = `id_by_name` + `node_opt` of the requested names.  The field
@@ -341,6 +343,31 @@ def dRD (rd : RegisterDescription) : String :=
 def sortedNodes (st : St Float) : List (Nat × NodeData Float) :=
   st.nodes.mergeSort (fun a b => a.1 ≤ b.1)
 
+def ipIds : ImmOrP Nat → List Nat
+  | .imm v => [v]
+  | .pnode _ => []
+
+def vkIds : ValueKind Nat → List Nat
+  | .value v => [v]
+  | .pValue _ => []
+  | .pIndex p => (p.valueIndexed.flatMap fun vi => ipIds vi.indexed) ++ ipIds p.valueDefault
+
+/-- value-store ids of the immediates of a node, in the order `dNode` prints them -/
+def immIds : NodeData Float → List Nat
+  | .integer n => vkIds n.valueKind ++ ipIds n.min ++ ipIds n.max
+  | .float n => vkIds n.valueKind ++ ipIds n.min ++ ipIds n.max
+  | .boolean n => ipIds n.value
+  | .command n => ipIds n.value ++ ipIds n.commandValue
+  | .enumeration n => ipIds n.value
+  | .string n => ipIds n.value
+  | _ => []
+
+def dCell : Value Float → String
+  | .int i => "i" ++ dInt i
+  | .float f => "f" ++ dFB f
+  | .str s => "s" ++ dS s
+  | .bool b => "b" ++ dB b
+
 def dLook (st : St Float) (name : Str) : String :=
   dS name ++ ":" ++
     match findName name st.names with
@@ -355,7 +382,9 @@ def dDoc (rd : RegisterDescription) (st : St Float) (formulas : List (Str × Str
   let c : Ctx := ⟨st, formulas⟩
   "ok rd{" ++ dRD rd ++ "} nodes[" ++ "|".intercalate ((sortedNodes st).map fun x => dNode c x.2) ++
   "] inval[" ++ ",".intercalate (st.invals.map fun x => dR c x.1 ++ ">" ++ dR c x.2) ++
-  "] look[" ++ ",".intercalate (looks.map (dLook st)) ++ "]"
+  "] look[" ++ ",".intercalate (looks.map (dLook st)) ++
+  "] store[" ++ ",".intercalate (st.values.map dCell) ++
+  "] imm[" ++ ",".intercalate (((sortedNodes st).flatMap fun x => immIds x.2).map toString) ++ "]"
 
 def takeLooks : Nat → List String → Option (List Str × List String)
   | 0, ts => some ([], ts)
